@@ -24,8 +24,9 @@ if os.environ.get('VERIF_REPO', '/repo') in ('', '/repo'):
 else:
     # runs against a scratch copy of the repository (mutation experiments) must not
     # clobber the evidence / replays of the real tree
-    EVIDENCE_DIR = os.path.join(ROOT, '.work', 'alt', 'evidence')
-    REPLAY_DIR = os.path.join(ROOT, '.work', 'alt', 'replays')
+    _ALT = os.path.join(ROOT, '.work', 'alt', os.path.basename(os.environ['VERIF_REPO'].rstrip('/')))
+    EVIDENCE_DIR = os.path.join(_ALT, 'evidence')
+    REPLAY_DIR = os.path.join(_ALT, 'replays')
 FINDINGS_FILE = os.path.join(ROOT, 'known_findings.json')
 
 
